@@ -551,6 +551,109 @@ theorem hardOut_iff (now : Nat) (e : FEntry) :
   simp only [Bool.and_eq_true, decide_eq_true_eq]
   constructor <;> (rintro ⟨h1, h2⟩; exact ⟨h1, by omega⟩)
 
+/-! ## every flow-removed / flow-stats message is about an entry of the table -/
+
+/-- a message that describes flows describes entries of the table `s.table`, as `to_flow_removed` / `flow_stats` render them at
+    `s.now` -/
+def TableOut (s : State) : Out → Prop
+  | .flowRemoved m => ∃ e ∈ s.table, ∃ r, m = removedMsg s.now r e
+  | .flowStats l => ∀ f ∈ l, ∃ e ∈ s.table, f = flowStat s.now e
+  | _ => True
+
+theorem notify_tableOut (s : State) (reason : Nat) (es : List FEntry) (h : ∀ e ∈ es, e ∈ s.table) :
+    ∀ o ∈ notify s.now reason es, TableOut s o := by
+  intro o ho
+  simp only [notify, List.mem_map, List.mem_filter] at ho
+  obtain ⟨e, ⟨he, _⟩, rfl⟩ := ho
+  exact ⟨e, h e he, reason, rfl⟩
+
+theorem flowModAdd_outs (s : State) (fm : FlowModMsg) : ∀ o ∈ (flowModAdd s fm).2, ∃ t c, o = .error t c := by
+  unfold flowModAdd flowModFailed
+  intro o ho
+  split at ho
+  · simp only [List.mem_singleton] at ho; exact ⟨_, _, ho⟩
+  · split at ho
+    · simp only [List.mem_singleton] at ho; exact ⟨_, _, ho⟩
+    · split at ho
+      · simp only [List.mem_singleton] at ho; exact ⟨_, _, ho⟩
+      · simp at ho
+
+theorem ctlSend_outs (pool : BufPool.Pool BFrame) (f : BFrame) (n : Nat) : ∀ o ∈ (ctlSend pool f n).2, ∃ a b c, o = .packetIn a b c := by
+  induction n generalizing pool with
+  | zero => intro o ho; simp [ctlSend] at ho
+  | succ n ih =>
+    intro o ho
+    simp only [ctlSend, List.mem_cons] at ho
+    rcases ho with rfl | ho
+    · exact ⟨_, _, _, rfl⟩
+    · exact ih _ o ho
+
+theorem bufferTail_outs (s : State) (fm : FlowModMsg) (t : State) : ∀ o ∈ (bufferTail s fm).2, TableOut t o := by
+  intro o ho
+  unfold bufferTail at ho
+  split at ho
+  · simp at ho
+  · simp at ho
+  · unfold bufferUse at ho
+    split at ho
+    · simp only [List.mem_singleton] at ho; subst ho; trivial
+    · split at ho
+      · simp only [List.mem_singleton] at ho; subst ho; trivial
+      · simp only [List.mem_append, List.mem_singleton] at ho
+        rcases ho with ho | rfl
+        · obtain ⟨a, b, c, rfl⟩ := ctlSend_outs _ _ _ o ho; trivial
+        · trivial
+
+/-- every flow-removed message a step writes renders an entry of the table before the step (with some reason, at the time of
+    the step), and every flow-stats body renders entries of the table — no hypothesis -/
+theorem step_outs_table (s : State) (op : Op) : ∀ o ∈ (step s op).2, TableOut s o := by
+  have errs : ∀ o : Out, (∃ t c, o = .error t c) → TableOut s o := by rintro o ⟨t, c, rfl⟩; trivial
+  cases op with
+  | flowMod fm =>
+    intro o ho
+    simp only [step, flowModStep, List.mem_append] at ho
+    rcases ho with ho | ho
+    · have hmod : ∀ strict, o ∈ (flowModModify s fm strict).2 → TableOut s o := by
+        intro strict h
+        unfold flowModModify at h
+        simp only at h
+        split at h
+        · simp at h
+        · exact errs o (flowModAdd_outs s fm o h)
+      unfold flowModHandler at ho
+      split at ho
+      · exact errs o (flowModAdd_outs s fm o ho)
+      · exact hmod false ho
+      · exact hmod true ho
+      · exact notify_tableOut s _ _ (fun e he => (List.mem_filter.mp he).1) o ho
+      · exact notify_tableOut s _ _ (fun e he => (List.mem_filter.mp he).1) o ho
+      · simp only [flowModFailed, List.mem_singleton] at ho; subst ho; trivial
+    · exact bufferTail_outs _ fm s o ho
+  | packet p port len =>
+    intro o ho
+    simp only [step, packetStep] at ho
+    split at ho
+    · obtain ⟨a, b, c, rfl⟩ := ctlSend_outs _ _ _ o ho; trivial
+    · simp only [List.mem_singleton] at ho; subst ho; trivial
+  | advance dt => intro o ho; simp [step] at ho
+  | sweep =>
+    intro o ho
+    simp only [step, sweep, List.mem_append] at ho
+    rcases ho with ho | ho
+    · exact notify_tableOut s _ _ (fun e he => (List.mem_filter.mp he).1) o ho
+    · exact notify_tableOut s _ _ (fun e he => (List.mem_filter.mp he).1) o ho
+  | flowStats m outPort =>
+    intro o ho
+    simp only [step, List.mem_singleton] at ho
+    subst ho
+    intro f hf
+    obtain ⟨e, he, rfl⟩ := List.mem_map.mp hf
+    exact ⟨e, (List.mem_filter.mp he).1, rfl⟩
+  | aggStats m outPort =>
+    intro o ho
+    simp only [step, List.mem_singleton] at ho
+    subst ho; trivial
+
 /-! ## nothing else leaves the table -/
 
 /-- what identifies an entry across steps (actions, `last_touched` and the counters may change) -/
